@@ -21,7 +21,7 @@ RULE = ("fake ACN-Data server holding 0-250 documents (unique _id, RFC-1123 stri
         "with >=1 empty page, or a document in a DST-transition hour; distinct = (page plan shape, args, fault, TZ)")
 PROBES = ["empty_page_middle", "empty_page_end", "zero_documents", "three_plus_pages", "dst_transition_doc", "timeseries_doc",
           "by_time_query", "page_chain_over_1000", "stale_meta_total", "equal_documents_query", "non_canonical_date_spelling", "fault:not_json", "fault:error_doc", "fault:connection", "invalid_site", "host_tz_non_utc",
-          "roundtrip_checked", "timeseries_spans_dst", "concurrent_generators", "interleaved_switches", "underscore_date_field",
+          "roundtrip_checked", "timeseries_spans_dst", "timeseries_leaves_and_returns_to_its_first_offset", "concurrent_generators", "interleaved_switches", "underscore_date_field",
           "new_year_query_bound", "prelude_query_on_same_client"]
 FAULT_DIMENSION = "interleaving of up to three generators of one client (seeded scheduler decides who advances); server-side faults at page k: non-JSON body, error document without _items, transport ConnectionError (client has no retry: must raise, never end silently)"
 REAL_VS_STUB = "real: DataClient, acndata.utils (http_date, parse_http_date, parse_dates); stub: requests -> in-process fake server; reference: integer epoch arithmetic + zoneinfo"
@@ -71,6 +71,15 @@ def gen(rs, tier):
                 # instants in between
                 ts2 = [ts2[0]] + sorted(ts2[0] + 1 + r.randrange(max(1, ts2[-1] - ts2[0] - 1)) for _ in range(k - 2)) + [ts2[-1]]
             d["pilotSignal"] = {"pilot": [32] * k, "timestamps": ts2}
+            rl = sub(rs, "long_series", i)
+            if rl.random() < 0.12:
+                # a slow logger: one sample a day / week / month / season, so that the series starts and ends under one UTC
+                # offset of its zone and passes through one or more other offsets in between
+                k = rl.randint(3, 30)
+                step = rl.choice([86400, 7 * 86400, 30 * 86400 + 3600, 61 * 86400, 122 * 86400, 182 * 86400 + 1800])
+                d["chargingCurrent"] = {"current": [round(rl.uniform(0, 32), 2) for _ in range(k)], "timestamps": [e + step * j for j in range(k)]}
+                d["pilotSignal"] = {"pilot": [32] * k, "timestamps": [e + step * j + (rl.randrange(step) if 0 < j < k - 1 else 0) for j in range(k)]}
+                d["_long_series"] = True
         docs.append(d)
     if len(docs) >= 2 and r.random() < 0.3:
         # two documents of different time zones that carry the very same instant (hence the same RFC-1123 string)
@@ -152,6 +161,7 @@ def serialise(d):
     out = dict(d)
     variant = d.get("_spelling")
     out.pop("_spelling", None)
+    out.pop("_long_series", None)
     for k in ("connectionTime", "disconnectTime", "doneChargingTime", "_created", "_updated"):
         if k in d:
             out[k] = respell(rfc1123(d[k]), variant) if d[k] is not None else None
@@ -365,6 +375,9 @@ def check(sc):
                                     break
                             if len(d[f]["timestamps"]) != len(src[f]["timestamps"]):
                                 out.add("C20/timeseries_length", f)
+                            ol_ = [dt.datetime.fromtimestamp(e, tz=z).utcoffset() for e in src[f]["timestamps"]]
+                            if len(ol_) >= 3 and ol_[0] == ol_[-1] and any(o_ != ol_[0] for o_ in ol_):
+                                out.probe("timeseries_leaves_and_returns_to_its_first_offset")
                     if out.viol:
                         break
             # ---- http_date / parse_http_date round trip, under this host TZ
